@@ -371,6 +371,12 @@ func (f *Frame) assumeNonFresh(t types.Type, term string) {
 		for i := 0; i < u.NumFields(); i++ {
 			f.assumeNonFresh(u.Field(i).Type(), "("+f.ex.S.fieldSel(sn, i)+" "+term+")")
 		}
+	case *types.Interface:
+		// the addresses boxed in an interface value that comes from outside the activation
+		if !f.ex.nonneg["nf:"+term] {
+			f.ex.nonneg["nf:"+term] = true
+			f.ex.global(func() { f.ex.assume("(nf.Any " + term + ")") })
+		}
 	}
 }
 
